@@ -371,7 +371,13 @@ def toast_pixel_for_point(depth, lat, lon, coordsys=ToastCoordinateSystem.ASTRON
     # that is closest to the input position.
 
     lons, lats = toast_tile_get_coords(tile)
-    dist2 = (lons - lon) ** 2 + (lats - lat) ** 2
+
+    # The longitudes of the pixel grid are not confined to any particular
+    # 2pi-wide branch (they can even change branch within one tile), so work
+    # with longitude offsets from the point of interest, wrapped into [-pi, pi).
+    lons = (lons - lon + np.pi) % TWOPI - np.pi
+    lon = 0.0
+    dist2 = lons**2 + (lats - lat) ** 2
     min_y, min_x = np.unravel_index(np.argmin(dist2), (256, 256))
 
     # Now, identify a postage stamp around that best-fit pixel and fit a biquadratic
